@@ -53,7 +53,12 @@ def main():
 
     for bp in sorted(glob.glob(os.path.join(env.VERIF, "baseline", "*.json.gz"))):
         name = os.path.basename(bp)[: -len(".json.gz")]
-        b = findings.load_baseline(name)
+        canon = None
+        if name.split(".")[0] == "C03":
+            from vf import htmlcmp
+
+            canon = htmlcmp.canon
+        b = findings.load_baseline(name, canon)
         prop = name.split(".")[0]
         counts, best = {}, {}
         for case, sig in b["map"].items():
